@@ -133,6 +133,10 @@ def gen_case(rng, tier="quick"):
         m["coupling"] = "z"
         for _ in range(nops):
             ops.append([_pick(rng, ["compute", "get_state", "get"])])
+    if m.get("dkmax") is not None and method in ("tempo", "mean_field",
+                                                  "pt_tempo"):
+        # memory beyond the cutoff folded into the last influence functional
+        m["act"] = _pick(rng, [None, None, 0.0, 0.25, "inf"])
     case["model"] = m
     case["ops"] = ops
     return case
@@ -174,6 +178,14 @@ def prepare_worker():
 # ---------------------------------------------------------------------------
 # builders (fresh objects each time they are called)
 
+def _act(m):
+    """add_correlation_time: None | float | 'inf' (JSON has no infinity)."""
+    a = m.get("act")
+    if a is None or m.get("dkmax") is None:
+        return None
+    return float("inf") if a == "inf" else float(a)
+
+
 def _bath(m):
     import oqupy
     o = models.ops()
@@ -213,6 +225,7 @@ def build_tempo(m, plan):
         system = oqupy.TimeDependentSystem(
             models.faulty("hamiltonian", ham, plan, so), **kw)
     pars = oqupy.TempoParameters(dt=dt, epsrel=m["epsrel"], dkmax=m["dkmax"],
+                                 add_correlation_time=_act(m),
                                  subdiv_limit=m["subdiv"])
     return oqupy.Tempo(system, _bath(m), pars, _initial(m), t0,
                        unique=m["unique"])
@@ -250,6 +263,7 @@ def build_mean_field(m, plan):
     mfs = oqupy.MeanFieldSystem(
         systems, field_eom=models.faulty("field_eom", eom, plan, so))
     pars = oqupy.TempoParameters(dt=dt, epsrel=m["epsrel"], dkmax=m["dkmax"],
+                                 add_correlation_time=_act(m),
                                  subdiv_limit=m["subdiv"])
     return oqupy.MeanFieldTempo(mfs, [_bath(m) for _ in range(m["nsys"])],
                                 pars, [_initial(m)] * m["nsys"],
@@ -314,7 +328,8 @@ def build_pt_tebd(m, n, amps=None, start_step=None, start_time=None):
 def build_pt_tempo(m, n):
     import oqupy
     pars = oqupy.TempoParameters(dt=m["dt"], epsrel=m["epsrel"],
-                                 dkmax=m["dkmax"])
+                                 dkmax=m["dkmax"],
+                                 add_correlation_time=_act(m))
     return oqupy.PtTempo(_bath(m), m["start_time"],
                          m["start_time"] + (max(n, 2) + 0.5) * m["dt"], pars,
                          unique=m["unique"])
